@@ -100,9 +100,17 @@ def get_ranges(headervalue, content_length):
         return None
 
     result = []
-    _bytesunit, byteranges = headervalue.split('=', 1)
+    _bytesunit, sep, byteranges = headervalue.partition('=')
+    if not sep:
+        # Not a ranges-specifier at all; see the rfc quote below.
+        return None
     for brange in byteranges.split(','):
-        start, stop = (x.strip() for x in brange.split('-', 1))
+        start, sep, stop = (x.strip() for x in brange.partition('-'))
+        if not sep or not all(x.isascii() and x.isdigit() for x in (start, stop) if x):
+            # From rfc 2616 sec 14.16 (and rfc 7233 sec 3.1):
+            # a syntactically invalid byte-range-spec makes the
+            # recipient ignore the whole Range header field.
+            return None
         if start:
             if not stop:
                 stop = content_length - 1
